@@ -91,6 +91,18 @@ Theorem C03_false_mark_changes_product : exists p f a,
 Proof. exact false_mark_changes_product. Qed.
 Print Assumptions C03_false_mark_changes_product.
 
+(** NumPy np_left_shift (rule Or (Elem "a") (Pub "np.all(b >= f)"), tied by gen/FlagOblig.v): shifting
+    by public amounts that are ALL >= f yields whole numbers; SOME amount >= f does not suffice *)
+Theorem C03_np_lshift_sound : forall f xs bs, 0 <= f -> (forall b, In b bs -> f <= b) ->
+  Forall (fun w => (2 ^ f | w)) (shift_each xs bs).
+Proof. exact sound_np_lshift. Qed.
+Print Assumptions C03_np_lshift_sound.
+
+Theorem C03_np_lshift_some_refuted : exists f xs bs, (exists b, In b bs /\ f <= b) /\
+  ~ Forall (fun w => (2 ^ f | w)) (shift_each xs bs).
+Proof. exact np_lshift_some_refuted. Qed.
+Print Assumptions C03_np_lshift_some_refuted.
+
 (** Non-vacuity: SecFxp(32,16): 2 (integral) times 3*2^-16 skips the truncation and is exact;
     2 * 2 stays integral. *)
 Example C03_nonvacuous :
